@@ -1439,6 +1439,20 @@ func (e *Exec) typedAtomic(fn *ssa.Function, full string, args []Value) (Value, 
 			}
 		}
 	}
+	// footprint: a package-level atomic that is only ever stored to / added to with
+	// the result discarded is a statistic; one that is also read can carry
+	// information from one CPU to another
+	if strings.HasPrefix(p.obj.name, "global:") {
+		g := p.obj.name[7:]
+		switch {
+		case method == "Load":
+			e.globalAtomR[g] = true
+		case method == "Store" || (method == "Add" && e.callResultUnused):
+			e.globalAtomW[g] = true
+		default:
+			e.globalW[g] = true
+		}
+	}
 	switch method {
 	case "Load":
 		e.events = append(e.events, Event{Kind: "atomic.Load"})
